@@ -102,6 +102,8 @@ func init() {
 			c.rulesC14chk(a)
 			c.rulesR3own()
 			c.rulesR3misc("C14")
+			c.rulesR3pub()   // C12.toctou: a stale index detaches somebody else's tracer
+			c.rulesC05name() // a final handler mistaken for negotiation re-ticks after TimeAfter was reported
 		}
 	})
 }
@@ -134,6 +136,7 @@ func init() {
 			c.rulesC13grace()
 			c.rulesR3parent()
 			c.rulesR3misc("C13")
+			c.rulesR3misc("C06") // C06.close: a waiter collected but never closed survives Dispose
 			c.rulesC13send(c.lockAnalysis())
 		}
 	})
@@ -216,6 +219,7 @@ func init() {
 		c.rulesC17()
 		c.rulesC17ord()
 		c.rulesR3misc("C17")
+		c.rulesR3misc("C14") // C14.net: a history bound to the mirror records what the tracers are told
 	})
 }
 
